@@ -3,7 +3,7 @@ PROPERTY = dict(
     level_text='Bounded model checking of the Ninja front-end kernels on the real code against references written from the Ninja manual and POSIX sh: keyword recognition for every identifier of 4..8 letters, $-expansion (evalString) for every string up to the bound over the special-character alphabet, and shell quoting checked by a reference sh word parser. Whole-manifest agreement with a reference Ninja is NOT decided (no reference Ninja exists in the solver world); the claim is exactly these kernels within these bounds.',
     level_note='Trusted: clang-14 -O1 IR, ir2c (validated each run), CBMC+SAT, the references in harness/C17 (written from the Ninja manual / POSIX 2.2-2.6), recording stubs for raw_ostream::write. Scoping order (build over rule over file), include/subninja scopes and lazy rule variables are not decided by this check.',
     bounds='identifiers 4..8 lower-case letters; evalString inputs <= 4 (thorough 6) bytes over {$,{,},space,:,newline,a,_,.,0x80}; shell-quoting inputs <= 4 (6) bytes over {a,quote,space,$,backslash,dquote,#,~,=,newline,0x80}',
-    outside='longer strings; "${}" (empty name, undefined by the manual); tabs after a line continuation; lookupBuildParameter scoping order; Parser/ManifestLoader as a whole',
+    outside='$in/$out expansion inside look-up; scope chains deeper than one file; longer strings; "${}" (empty name, undefined by the manual); tabs after a line continuation; lookupBuildParameter scoping order; Parser/ManifestLoader as a whole',
     stubs='raw_ostream::write(const char*,size_t) and write(unsigned char) -> recorder; look-up and error callbacks -> recorder',
     assumptions=['string tokens contain a newline only directly after a $ (lexer invariant, checked by C19-H1 tiling)'],
 )
@@ -21,4 +21,13 @@ OBLIGATIONS = [
          tus=['lib/Basic/ShellUtility.cpp', 'lib/llvm/Support/raw_ostream.cpp', 'lib/llvm/Support/StringRef.cpp'],
          noinline=[r'appendShellEscapedString', r'StringRef17find_first_not_ofES0_m', r'StringRef13find_first_ofES0_m'], expect_functions=[r'appendShellEscapedString'],
          unwind='4*VF_N+4', unwindset='strlen.0:90,G__ZNK4llvm9StringRef17find_first_not_ofES0_m.0:80,G__ZNK4llvm9StringRef13find_first_ofES0_m.0:80', params_quick=lens(1, 4), params_thorough=lens(1, 6), timeout=900),
+]
+# N5 (look-up order / lazy rule variables, harness C17/h_lookup.cpp) is built but does not reach a verdict:
+# the real llvm::StringMap probing and std::string code need > 600 s per query even with the binding shape concrete.
+DISABLED = [
+    dict(name='N5.lookup-order', harness='C17/h_lookup.cpp', entry='harness_lookup', stubs=STREAM,
+         tus=['lib/llvm/Support/raw_ostream.cpp', 'lib/llvm/Support/StringMap.cpp', 'lib/llvm/Support/StringRef.cpp', 'lib/Ninja/Manifest.cpp'],
+         noinline=[r'ManifestLoaderImpl24lookupBuildParameterImpl', r'ManifestLoaderImpl10evalString'], expect_functions=[r'ManifestLoaderImpl24lookupBuildParameterImpl'],
+         stub_virtual=['ManifestLoaderImpl(?!5error)', '^_ZN7llbuild5ninja12ParseActions', 'JobDescriptor', 'ninja7Command'], allow_external=['^_ZTV'], assert_external=['.'],
+         unwind=8, unwind_loops=[('StringMap|HashString', 20)], params_quick=[{'VF_MASK': m} for m in (0, 1, 2, 6, 14, 16, 18, 31)], params_thorough=[{'VF_MASK': m} for m in range(32)], timeout=600, cbmc_flags=['--object-bits', '10']),
 ]
